@@ -727,9 +727,13 @@ func writeShimFacts(p *pkgInfo, outPath string) {
 					continue
 				}
 				k, _ := kv.Key.(*ast.Ident)
-				v := exprString(kv.Value)
-				if i := strings.LastIndex(v, "."); i >= 0 {
-					v = v[i+1:]
+				// the value must BE the csproto option field (`<receiver>.opts.<field>`); anything computed from it — a
+				// local variable, a condition, a call — is recorded as the expression it is and fails the bridge lemma
+				v := "expr: " + exprString(kv.Value)
+				if sel, ok := kv.Value.(*ast.SelectorExpr); ok {
+					if in, ok := sel.X.(*ast.SelectorExpr); ok && in.Sel.Name == "opts" {
+						v = sel.Sel.Name
+					}
 				}
 				if k != nil {
 					wiring = append(wiring, fmt.Sprintf("(%q, %q, %q)", tp, k.Name, v))
@@ -763,6 +767,54 @@ func writeShimFacts(p *pkgInfo, outPath string) {
 		}
 	}
 	fmt.Fprintf(&b, "def jsonSetters : List (String × String) := [%s]\n\n", strings.Join(setters, ", "))
+	// … and nothing but the option constructors writes an option field (the wiring above reads what the caller set)
+	var optWrites []string
+	for _, f := range p.files {
+		for _, dcl := range f.Decls {
+			fd, ok := dcl.(*ast.FuncDecl)
+			if !ok || fd.Body == nil || (fd.Recv == nil && strings.HasPrefix(fd.Name.Name, "JSON")) {
+				continue
+			}
+			ast.Inspect(fd.Body, func(n ast.Node) bool {
+				as, ok := n.(*ast.AssignStmt)
+				if !ok {
+					return true
+				}
+				for _, l := range as.Lhs {
+					if x := exprString(l); strings.Contains(x+".", ".opts.") || strings.HasPrefix(x, "opts.") {
+						optWrites = append(optWrites, fd.Name.Name+": "+x)
+					}
+				}
+				return true
+			})
+		}
+	}
+	fmt.Fprintf(&b, "/-- assignments to a JSON option field outside the option constructors -/\ndef jsonOptionWritesElsewhere : List String := %s\n\n", leanStrList(optWrites))
+
+	// F7b: requests to TRUST the runtime's size caches, anywhere in the root package (UseCachedSize in an option literal
+	// or assignment, protoiface.MarshalUseCachedSize): csproto cannot know what happened to a message tree since a
+	// cache entry was written, so no dispatcher / encoder arm may ask for it
+	var cached []string
+	for _, f := range p.files {
+		fname := filepath.Base(p.fset.Position(f.Pos()).Filename)
+		ast.Inspect(f, func(n ast.Node) bool {
+			switch x := n.(type) {
+			case *ast.KeyValueExpr:
+				if k, ok := x.Key.(*ast.Ident); ok && k.Name == "UseCachedSize" {
+					if v, ok := x.Value.(*ast.Ident); !ok || v.Name != "false" {
+						cached = append(cached, fname+": UseCachedSize: "+exprString(x.Value))
+					}
+				}
+			case *ast.SelectorExpr:
+				if x.Sel.Name == "UseCachedSize" || x.Sel.Name == "MarshalUseCachedSize" {
+					cached = append(cached, fname+": "+exprString(x))
+				}
+			}
+			return true
+		})
+	}
+	fmt.Fprintf(&b, "/-- places of the root package that ask a runtime to use its cached sizes -/\ndef cachedSizeRequests : List String := %s\n\n", leanStrList(cached))
+	fmt.Printf("fact F7b %d cached-size requests, %d option writes outside the constructors\n", len(cached), len(optWrites))
 
 	// F8: the gRPC codec
 	var codec []string
